@@ -8,25 +8,7 @@ RUNFN = "run_C01"
 MODES = [True, False]          # cfg(debug_assertions) on / off
 
 # signature: L = digit list of the configuration, B = bool
-OPS = {
-    "U.overflowing_add": "LL", "U.overflowing_sub": "LL", "U.overflowing_add_signed": "LL", "U.overflowing_neg": "L",
-    "U.checked_add": "LL", "U.checked_sub": "LL", "U.checked_add_signed": "LL", "U.checked_neg": "L",
-    "U.wrapping_add": "LL", "U.wrapping_sub": "LL", "U.wrapping_add_signed": "LL", "U.wrapping_neg": "L",
-    "U.saturating_add": "LL", "U.saturating_sub": "LL", "U.saturating_add_signed": "LL",
-    "U.strict_add": "LL", "U.strict_sub": "LL", "U.strict_neg": "L", "U.add": "LL", "U.sub": "LL",
-    "U.carrying_add": "LLB", "U.borrowing_sub": "LLB", "U.abs_diff": "LL", "U.midpoint": "LL",
-    "I.overflowing_add": "LL", "I.overflowing_sub": "LL", "I.overflowing_add_unsigned": "LL",
-    "I.overflowing_sub_unsigned": "LL", "I.overflowing_neg": "L", "I.overflowing_abs": "L",
-    "I.checked_add": "LL", "I.checked_sub": "LL", "I.checked_add_unsigned": "LL", "I.checked_sub_unsigned": "LL",
-    "I.checked_neg": "L", "I.checked_abs": "L",
-    "I.wrapping_add": "LL", "I.wrapping_sub": "LL", "I.wrapping_add_unsigned": "LL", "I.wrapping_sub_unsigned": "LL",
-    "I.wrapping_neg": "L", "I.wrapping_abs": "L",
-    "I.saturating_add": "LL", "I.saturating_sub": "LL", "I.saturating_add_unsigned": "LL",
-    "I.saturating_sub_unsigned": "LL", "I.saturating_neg": "L", "I.saturating_abs": "L",
-    "I.strict_add": "LL", "I.strict_sub": "LL", "I.strict_neg": "L", "I.strict_abs": "L",
-    "I.add": "LL", "I.sub": "LL", "I.neg": "L", "I.abs": "L",
-    "I.carrying_add": "LLB", "I.borrowing_sub": "LLB", "I.unsigned_abs": "L", "I.abs_diff": "LL", "I.midpoint": "LL",
-}
+from .ops_c01 import OPS
 
 
 def line(op, w, n, vals, sig):
